@@ -8,8 +8,8 @@
       live   = live instance counts `R<r>:<n>` `F<r>:<n>` `S<k>.<c>:<n>` (created − released)
       faults = number of use-after-free / double-free events so far
       mapped = `C<k>:<0/1>` per compiled version
-   ops:  b:<r>  rc:<r>  rf:<r>  c:<r>:<k>:<nconst>:<useConst>:<useClos>:<value>
-         g:<k>  ch:<i>  x:<i>  dh:<i>  dp:<k>  dr:<r>
+   ops:  b:<r>  rc:<r>  rf:<r>  c:<r>:<k>:<nconst>:<useConst>:<useClos>:<useData>:<value>
+         g:<k>  gt:<k>  ch:<i>  if:<i>  x:<i>  dh:<i>  dp:<k>  dr:<r>
 -/
 import Driver.Util
 import RotoV.Model.Lifetime
@@ -29,17 +29,19 @@ def parseOp (tok : String) : Option Op :=
       | "rc" => some (.registerConst n)
       | "rf" => some (.registerClosure n)
       | "g" => some (.getHandle n)
+      | "gt" => some (.getTest n)
       | "ch" => some (.cloneHandle n)
+      | "if" => some (.intoFunc n)
       | "x" => some (.call n)
       | "dh" => some (.dropHandle n)
       | "dp" => some (.dropPackage n)
       | "dr" => some (.dropRuntime n)
       | _ => none
-  | ["c", r, k, n, uc, uf, v] =>
-    match r.toNat?, k.toNat?, n.toNat?, uc.toNat?, uf.toNat?, v.toNat? with
-    | some r, some k, some n, some uc, some uf, some v =>
-      if uc ≤ 1 ∧ uf ≤ 1 then some (.compile r k n (uc == 1) (uf == 1) v) else none
-    | _, _, _, _, _, _ => none
+  | ["c", r, k, n, uc, uf, ud, v] =>
+    match r.toNat?, k.toNat?, n.toNat?, uc.toNat?, uf.toNat?, ud.toNat?, v.toNat? with
+    | some r, some k, some n, some uc, some uf, some ud, some v =>
+      if uc ≤ 1 ∧ uf ≤ 1 ∧ ud ≤ 1 then some (.compile r k n (uc == 1) (uf == 1) (ud == 1) v) else none
+    | _, _, _, _, _, _, _ => none
   | _ => none
 
 def showCall : CallRes → String
